@@ -422,6 +422,14 @@ benign("c01-dispatch-none-first", "C01", SSD,
 benign("c01-dispatch-named-flag", "C01", SSD,
        "    if scratch.ll_rle.is_some() || scratch.ml_rle.is_some() || scratch.of_rle.is_some() {",
        "    let any_rle = scratch.ll_rle.is_some() || scratch.ml_rle.is_some() || scratch.of_rle.is_some();\n    if any_rle {")
+# ---- buffer pool of the built-in matcher -----------------------------------------------------------
+mutant("c02-recycled-space-not-resized", "C02", "C02.cover.frame-reset", MGEN,
+       "            data.resize(data.capacity(), 0);\n            vec_pool.push(data);\n            suffixes.slots.clear();\n            suffixes.slots.resize(suffixes.slots.capacity(), None);\n            suffix_pool.push(suffixes);\n        });\n    }\n\n    fn window_size",
+       "            vec_pool.push(data);\n            suffixes.slots.clear();\n            suffixes.slots.resize(suffixes.slots.capacity(), None);\n            suffix_pool.push(suffixes);\n        });\n    }\n\n    fn window_size")
+mutant("c15-recycled-space-not-resized", "C15", "C15.flow.frame-reset", MGEN,
+       "            data.resize(data.capacity(), 0);\n            vec_pool.push(data);\n            suffixes.slots.clear();\n            suffixes.slots.resize(suffixes.slots.capacity(), None);\n            suffix_pool.push(suffixes);\n        });\n    }\n\n    fn window_size",
+       "            vec_pool.push(data);\n            suffixes.slots.clear();\n            suffixes.slots.resize(suffixes.slots.capacity(), None);\n            suffix_pool.push(suffixes);\n        });\n    }\n\n    fn window_size")
+
 # the frame header's little-endian fields read with from_le_bytes of fresh zeroed arrays (the correct twin of seed C09-c)
 patch_case("le-fields-from-le-bytes", "benign", ["C01", "C03", "C09", "C10", "C11", "C14"], "selftest/patches/benign-le-from-bytes.diff")
 
